@@ -112,6 +112,24 @@ def make_pool(rng, n=24, classes=("real",), encoding="utf-8", long_ok=False):
     while len(pool) < n and guard < n * 50:
         guard += 1
         c = rng.choice(classes)
+        if pool and c != "text" and rng.random() < 0.3:
+            # relatives of an LRU already in the pool: its parent, a child, or (multi-block
+            # stems) a sibling of the same family, so that pages sit on, above and below
+            # prefixes and long stems that share their first block(s) become siblings
+            base = rng.choice(pool)
+            st = stems(base)
+            r = rng.random()
+            if r < 0.4 and len(st) > 2:
+                lru = b"".join(st[:-1])
+            elif r < 0.7 or not long_ok:
+                lru = base + rng.choice(PATHS)
+            else:
+                fam = (rng.choice((b"a", b"b")),)
+                par = b"".join(st[:-1]) if len(st[-1]) > 74 else base
+                lru = par + g_long_stem(rng, families=fam)
+            if wellformed(lru) and rules_ok(lru) and lru not in pool:
+                pool.append(lru)
+            continue
         if c == "real":
             lru = g_real(rng, long_ok=long_ok)
         elif c == "deep":
